@@ -445,3 +445,232 @@ def c18_10(ctx: Ctx):
         ctx.check(g in text, m, None, f"retarget.py consults capstone's {g}",
                   f"{g} is not referenced anywhere in the module that classifies operands: instructions capstone tags only with that group (x86 `loop`/`loope`/`loopne`, MIPS `bal` for "
                   "BRANCH_RELATIVE) are treated as code references - the branch edge stays on the old referent and the wrong attribute rule is applied", key=f"retarget::{g}")
+
+
+# ----------------------------------------------------------------------------
+# strict deletion in a loop over a list that can name the same key twice
+# ----------------------------------------------------------------------------
+
+
+@rule("GEN.deldup", ALL_PROPS, "a strict deletion (`del d[k]`, `d.pop(k)`, `s.remove(x)`) is not driven by a list in which the same key can occur twice", 1, scoped=True)
+def gen_deldup(ctx: Ctx):
+    n = 0
+    for q, fi in sorted(ctx.repo.funcs.items()):
+        comps: Dict[str, ast.ListComp] = {}
+        for st in walk_no_nested(fi.node):
+            v = None
+            if isinstance(st, ast.Assign) and len(st.targets) == 1 and isinstance(st.targets[0], ast.Name):
+                v, val = st.targets[0].id, st.value
+            elif isinstance(st, ast.AnnAssign) and isinstance(st.target, ast.Name) and st.value is not None:
+                v, val = st.target.id, st.value
+            if v and isinstance(val, ast.ListComp) and len(val.generators) >= 2 and isinstance(val.elt, ast.Tuple):
+                comps[v] = val
+        if not comps:
+            continue
+        for lp in [x for x in walk_no_nested(fi.node) if isinstance(x, ast.For) and isinstance(x.iter, ast.Name) and x.iter.id in comps and isinstance(x.target, ast.Tuple)]:
+            comp = comps[lp.iter.id]
+            if len(lp.target.elts) != len(comp.elt.elts):
+                continue
+            ignored = [i for i, t in enumerate(lp.target.elts) if isinstance(t, ast.Name) and t.id.startswith("_")]
+            if not ignored:
+                continue
+            # does an ignored component carry the innermost generator's variable? then the kept components repeat
+            inner = {t.id for t in ast.walk(comp.generators[-1].target) if isinstance(t, ast.Name)}
+            kept_use_inner = any(inner & {x.id for x in ast.walk(comp.elt.elts[i]) if isinstance(x, ast.Name)} for i in range(len(comp.elt.elts)) if i not in ignored)
+            ign_use_inner = any(inner & {x.id for x in ast.walk(comp.elt.elts[i]) if isinstance(x, ast.Name)} for i in ignored)
+            if kept_use_inner or not ign_use_inner:
+                continue
+            n += 1
+            strict = []
+            for st in lp.body:
+                for x in ast.walk(st):
+                    if isinstance(x, ast.Delete) and any(isinstance(t, ast.Subscript) for t in x.targets):
+                        strict.append(x)
+                    if isinstance(x, ast.Call) and isinstance(x.func, ast.Attribute) and ((x.func.attr == "pop" and len(x.args) == 1 and not x.keywords) or x.func.attr == "remove"):
+                        strict.append(x)
+            ctx.check(not strict, fi, strict[0] if strict else lp, f"deletions driven by `{lp.iter.id}` tolerate a repeated key",
+                      f"`{lp.iter.id}` holds one entry per `{', '.join(sorted(inner))}`, but the loop ignores that component and deletes by the others: when one item yields two entries "
+                      f"(an expression that names two deleted symbols) `{src(strict[0])[:50] if strict else ''}` runs twice for the same key and the second raises KeyError half-way "
+                      "through the rewrite; use `.pop(key, None)`/`discard`", key=f"{q}::deldup::{lp.iter.id}")
+    ctx.ok(ctx.repo.mod("_modify.delete_symbols"), None, f"{n} deletion loops over multi-generator lists examined", nontrivial=False, key="GEN.deldup::scan")
+
+
+# ----------------------------------------------------------------------------
+# a memo of a function of an object is keyed by the object's identity, not by its name
+# ----------------------------------------------------------------------------
+
+
+@rule("GEN.memokey", ALL_PROPS, "a cache of something computed from an object is keyed by the object (or its uuid), not by its name", 1, scoped=True)
+def gen_memokey(ctx: Ctx):
+    from ..astx import find_assign
+
+    n = 0
+    for q, fi in sorted(ctx.repo.funcs.items()):
+        for st in walk_no_nested(fi.node):
+            if not (isinstance(st, ast.Assign) and len(st.targets) == 1 and isinstance(st.targets[0], ast.Subscript) and isinstance(st.targets[0].value, ast.Attribute)
+                    and src(st.targets[0].value.value) == "self"):
+                continue
+            k, v = st.targets[0].slice, st.value
+
+            def resolve(e):
+                if isinstance(e, ast.Name):
+                    a = [x for x in find_assign(fi.node, e.id) if x.value is not None and x.lineno <= st.lineno]
+                    calls = [x.value for x in a if isinstance(x.value, (ast.Call, ast.Attribute))]
+                    if calls:
+                        return calls[-1]
+                return e
+
+            k, v = resolve(k), resolve(v)
+            obj = None
+            if isinstance(k, ast.Attribute) and isinstance(k.value, ast.Name) and k.attr in ("name", "label"):
+                obj = k.value.id
+            if isinstance(k, ast.Call) and isinstance(k.func, ast.Attribute) and isinstance(k.func.value, ast.Name) and k.func.attr in ("get_name", "name") and not k.args:
+                obj = k.func.value.id
+            if obj is None or not isinstance(v, ast.Call):
+                continue
+            n += 1
+            takes_obj = any(isinstance(a, ast.Name) and a.id == obj for a in list(v.args) + [kw.value for kw in v.keywords])
+            ctx.check(not takes_obj, fi, st, f"`{src(st.targets[0].value)}` is keyed by what its values depend on",
+                      f"`{src(v)[:60]}` is computed from `{obj}` but remembered under `{src(k)}`: two objects with the same name (gtirb does not forbid it; one of them may hold the module "
+                      "entry point) share the verdict of whichever was asked about first", key=f"{q}::memokey::{src(st.targets[0].value)}")
+    ctx.ok(ctx.repo.mod("scopes"), None, f"{n} name-keyed memo stores examined", nontrivial=False, key="GEN.memokey::scan")
+
+
+# ----------------------------------------------------------------------------
+# positive fixtures: the lints above find nothing on today's tree, so each must prove on every run
+# that it still recognises the construct it was written for
+# ----------------------------------------------------------------------------
+
+_FIXTURE = '''
+import contextlib, itertools
+from typing import Dict, Iterable, List
+
+class Cache:
+    def __init__(self, state):
+        self._state = state
+        self._streamer = Streamer(self._state)
+        self._sized = None
+        self._verdicts = {}
+        self._pool = []
+
+    def _pool_list(self) -> List[int]:
+        return self._pool
+
+    def take(self, r):
+        pool = self._pool_list()
+        pool.remove(r)
+
+    def for_size(self, ptr_size):
+        if self._sized is None:
+            self._sized = Encoder(ptr_size)
+        return self._sized
+
+    def finalize(self):
+        self._state = State()
+
+    def matches(self, module, func):
+        key = func.get_name()
+        verdict = self._verdicts.get(key)
+        if verdict is None:
+            verdict = pattern_match(module, func)
+            self._verdicts[key] = verdict
+        return verdict
+
+
+@contextlib.contextmanager
+def manager(x):
+    cache = make()
+    yield cache
+    cache.apply()
+
+
+def group(blocks):
+    blocks.sort(key=lambda b: (b.address, b.size))
+    for sect, bs in itertools.groupby(blocks, key=lambda b: b.section):
+        use(sect, bs)
+
+
+def twice(tables: Iterable[int], groups):
+    for g in groups:
+        for t in tables:
+            use(g, t)
+
+
+def clobber(cache, block, offset, length):
+    start, end, added = split_block(cache, block, offset)
+    if length:
+        mid, end, added = split_block(cache, end, length)
+    return start, end, added
+
+
+def scrub(module, symbols) -> None:
+    for table in (first_table, second_table):
+        entries = table.get(module)
+        if not entries:
+            return
+        table.set(module, [e for e in entries if e not in symbols])
+
+
+def pairs(saved, out):
+    for i in range(len(saved) // 2):
+        out.append((saved[i], saved[i + 1]))
+
+
+def drop(module, symbols):
+    uses = [(sym, bi, off) for bi in module.byte_intervals for off, expr in bi.symbolic_expressions.items() for sym in expr.symbols]
+    for _, bi, off in uses:
+        del bi.symbolic_expressions[off]
+'''
+
+_FIXTURE_EXPECT = {
+    "GEN.ctxcleanup": "manager",
+    "GEN.groupby": "group",
+    "GEN.iteronce": "twice",
+    "GEN.unpackclobber": "clobber",
+    "GEN.stalecache": "for_size",
+    "GEN.stalecapture": "finalize",
+    "GEN.aliasmut": "take",
+    "GEN.returnloop": "scrub",
+    "GEN.pairstride": "pairs",
+    "GEN.deldup": "drop",
+    "GEN.memokey": "matches",
+}
+
+
+@rule("GEN.fixtures", ALL_PROPS, "every round-7 lint still recognises the construct it was written for (positive fixtures, evaluated on every run)", 11, scoped=True)
+def gen_fixtures(ctx: Ctx):
+    import tempfile
+    from pathlib import Path
+
+    from .. import core
+
+    saved = core.CURRENT_REPO
+    try:
+        with tempfile.TemporaryDirectory(prefix="verif_fixture_") as tmp:
+            pkg = Path(tmp) / "src" / core.PKG
+            pkg.mkdir(parents=True)
+            (pkg / "__init__.py").write_text("")
+            (pkg / "fixture.py").write_text(_FIXTURE)
+            os_env = __import__("os").environ
+            old = os_env.get("VERIF_BUILDING_REFERENCE")
+            os_env["VERIF_BUILDING_REFERENCE"] = "1"   # no reference-relative renaming/folding for the fixture
+            try:
+                mini = core.Repo(Path(tmp))
+            finally:
+                if old is None:
+                    os_env.pop("VERIF_BUILDING_REFERENCE", None)
+                else:
+                    os_env["VERIF_BUILDING_REFERENCE"] = old
+            for rid, where in sorted(_FIXTURE_EXPECT.items()):
+                rdef = core.RULES[rid]
+                sub = Ctx(mini, rdef, ctx.tier)
+                try:
+                    rdef.fn(sub)
+                except AnalysisError:
+                    pass   # instance floors are about the real package
+                hits = [i for i in sub.instances if i.verdict == "violation" and where in i.key]
+                if not hits:
+                    raise AnalysisError(f"{rid} no longer reports its positive fixture (`{where}` in sa/rules/round7.py::_FIXTURE): the lint went blind")
+                ctx.ok(ctx.repo.mod("rewriting"), None, f"{rid}: fixture `{where}` reported", key=f"fixture::{rid}", nontrivial=False)
+    finally:
+        core.CURRENT_REPO = saved
